@@ -54,11 +54,17 @@ def check_refine(case, ctx):
     R = build.exact_from(d, obj)
     pdim = len(d["degree"])
     dens = case["density"]
+    held = held_copy = None
     if case["read"]:
         obj.delta = 0.25
-        _ = obj.evalpts
+        held = obj.evalpts          # the caller keeps the sampled points it was given ...
+        held_copy = [list(q) for q in held]
     kvs, szs = build.kvs_of(obj), build.sizes_of(obj)
     operations.refine_knotvector(obj, list(dens))
+    if held is not None:
+        # ... and finds them unchanged after the refinement (the evaluated points do not change, in particular not to nothing)
+        ctx.check([list(q) for q in held] == held_copy, "held-evalpts-changed",
+                  "the points the caller obtained from evalpts before the refinement changed afterwards: %d points, %d before" % (len(held), len(held_copy)))
     nkvs, nszs = build.kvs_of(obj), build.sizes_of(obj)
     ctx.nt(any(len(set(b - a for a, b in zip(sorted(set(kv)), sorted(set(kv))[1:]))) > 1 for kv in d["kv"]), "non-uniform")
     ctx.nt(build.has_repeated_interior(d), "existing-multiplicity>=2")
